@@ -2,9 +2,14 @@ package minter
 
 import (
 	"context"
+	"io"
 	"math/big"
+	"os"
 	"sync"
 	"time"
+
+	"github.com/cosmos/cosmos-sdk/snapshots"
+	tmlog "github.com/tendermint/tendermint/libs/log"
 
 	"github.com/MinterTeam/minter-go-node/cmd/utils"
 	"github.com/MinterTeam/minter-go-node/config"
@@ -109,11 +114,38 @@ func VerifHarness_Node_FirstBlockThenRestartOrSync() {
 		a := v.GetAddress()
 		votes = append(votes, abciTypes.VoteInfo{Validator: abciTypes.Validator{Address: a[:], Power: 1}, SignedLastBlock: true})
 	}
-	bc1.BeginBlock(abciTypes.RequestBeginBlock{
-		Header:         tmproto.Header{Height: h, Time: time.Unix(1704067200+3*3600+5*h, 0).UTC()},
-		LastCommitInfo: abciTypes.LastCommitInfo{Votes: votes},
-	})
-	bc1.EndBlock(abciTypes.RequestEndBlock{Height: h})
+	block := func(height int64) {
+		bc1.BeginBlock(abciTypes.RequestBeginBlock{
+			Header:         tmproto.Header{Height: height, Time: time.Unix(1704067200+3*3600+5*height, 0).UTC()},
+			LastCommitInfo: abciTypes.LastCommitInfo{Votes: votes},
+		})
+		bc1.EndBlock(abciTypes.RequestEndBlock{Height: height})
+	}
+	if verifConfig("viaCommit") == 1 {
+		// one more block first, so that the window of block times has two entries
+		block(h)
+		bc1.Commit()
+		h++
+	}
+	block(h)
+	var store *snapshots.Store
+	if verifConfig("mode") == 1 && verifConfig("viaCommit") == 1 {
+		// the snapshot is taken the way the node takes it: Commit itself spawns
+		// Blockchain.snapshot for a height on the snapshot interval, which asks
+		// the SDK manager, which calls AppDB.Snapshot
+		dir, err := os.MkdirTemp("", "verif-snapshots")
+		if err != nil {
+			panic(err)
+		}
+		defer os.RemoveAll(dir)
+		store, err = snapshots.NewStore(db.NewMemDB(), dir)
+		if err != nil {
+			panic(err)
+		}
+		bc1.snapshotManager = snapshots.NewManager(store, a1)
+		bc1.snapshotInterval = 1
+		bc1.logger = tmlog.NewNopLogger()
+	}
 	bc1.Commit()
 
 	var bc2 *Blockchain
@@ -121,8 +153,26 @@ func VerifHarness_Node_FirstBlockThenRestartOrSync() {
 		// stop and start again over the same disks
 		bc2 = verifNodeOn(appdb.VerifNewAppDB(disk), storages)
 	} else {
-		a1.WG.Add(1)
-		chunks, err := a1.Snapshot(uint64(h), snapshottypes.CurrentFormat)
+		var chunks <-chan io.ReadCloser
+		var err error
+		if store != nil {
+			// wait for the background snapshot (natively a goroutine)
+			for n := 0; n < 500; n++ {
+				if s, _ := store.Get(uint64(h), snapshottypes.CurrentFormat); s != nil {
+					break
+				}
+				time.Sleep(10 * time.Millisecond)
+			}
+			var s *snapshottypes.Snapshot
+			s, chunks, err = store.Load(uint64(h), snapshottypes.CurrentFormat)
+			if err == nil && s == nil {
+				verifAssert(pfx+"snapshot-of-the-committed-height-succeeds", false)
+				return
+			}
+		} else {
+			a1.WG.Add(1)
+			chunks, err = a1.Snapshot(uint64(h), snapshottypes.CurrentFormat)
+		}
 		verifAssert(pfx+"snapshot-of-the-committed-height-succeeds", err == nil)
 		if err != nil {
 			return
@@ -133,6 +183,7 @@ func VerifHarness_Node_FirstBlockThenRestartOrSync() {
 			verifAssert(pfx+"restore-of-an-honest-snapshot-succeeds", false)
 			return
 		}
+		verifAssert(pfx+"app-db-agrees", appdb.VerifDiffers(a1, a2) == "")
 	}
 	i1, i2 := bc1.Info(abciTypes.RequestInfo{}), bc2.Info(abciTypes.RequestInfo{})
 	verifAssert(pfx+"info-height", i1.LastBlockHeight == i2.LastBlockHeight && i1.LastBlockHeight == h)
